@@ -232,3 +232,9 @@ theorem C01_by_type_harvest_swaps_exactly (s : PState) (runId : String) (run : R
       h'.span = (if (hasBit mask 128 && cfg.limSpan != 0) then Res.new cfg.limSpan else run.h.span) ∧
       h'.log = (if (hasBit mask 256 && cfg.limLog != 0) then Res.new cfg.limLog else run.h.log) :=
   harvestTypesPart_reservoirs s runId run app cfg mask a
+
+/-- **C01 (tie).**  `considerHarvestPayload`: an empty container is not sent; a non-empty one gets exactly one sender. -/
+theorem C01_consider_payload_source_tied : Gen.Skeleton.considerHarvestPayload = Reviewed.considerHarvestPayload := rfl
+
+/-- **C01 (tie).**  `newAnalyticsEvents`: every reservoir owns a freshly made slice of its capacity. -/
+theorem C01_new_reservoir_source_tied : Gen.Skeleton.newAnalyticsEvents = Reviewed.newAnalyticsEvents := rfl
